@@ -36,6 +36,10 @@ def bounded(q, preds):
             return 'dominating guard quantile < 1 << PRECISION'
         if t[0] == 'bin' and t[1] == 'Le' and POW_P(t[2]) and peel_casts(t[3]) == core and v == 0:
             return 'dominating guard !(quantile >= 1 << PRECISION)'
+        # any other spelling of the same threshold (`q >> PRECISION == 0`, `1 << PRECISION > q`, ...)
+        c = pow2.below_pow2(t, v)
+        if c is not None and peel_casts(c[0]) == core and c[2] and pow2.exp_cmp(c[1], pow2.width_exp(('c', 'PRECISION'))) == 0:
+            return 'dominating guard equivalent to quantile < 1 << PRECISION'
     # type-width edge: PRECISION == BITS of the quantile's own type (no narrowing needed: every value fits)
     for t, v, _ in preds:
         if t[0] == 'bin' and t[1] == 'Eq' and v == 1 and ('c', 'PRECISION') in (t[2], t[3]):
